@@ -181,7 +181,7 @@ pub fn c14(run: &Run) -> Vec<String> {
     }
     if run.cfg.routing == Routing::KeyPersistent {
         // jobs of one key are handled in submission order
-        for key in [0u8, 1] {
+        for key in [0u8, 1, 2] {
             let order: Vec<u32> = iv.iter().filter(|x| x.4 == key).map(|x| x.5).collect();
             let mut sorted = order.clone();
             sorted.sort();
@@ -237,9 +237,28 @@ pub fn c15(run: &Run) -> Vec<String> {
         Discard::None => None,
         Discard::Newest(l) | Discard::Oldest(l) => Some(l),
     };
-    if let Some(l) = limit {
+    // the limit in effect after history[i] (settings updates move it)
+    // (mode Newest only ever refuses the incoming job, so jobs admitted under an earlier, larger limit stay:
+    // there the bound is the largest limit that was in effect so far)
+    let newest_mode = matches!(run.cfg.discard, Discard::Newest(_));
+    let limit_at = |i: usize| {
+        let upto = run.limits.iter().filter(|(from, _)| *from <= i);
+        if newest_mode {
+            upto.filter_map(|(_, l)| *l).max()
+        } else {
+            upto.last().and_then(|(_, l)| *l)
+        }
+    };
+    let changed = run.limits.len() > 1;
+    if let Some(l0) = limit {
         if run.cfg.factory_queueing() {
             for (step, q, ..) in &run.probes {
+                let l = limit_at(*step).unwrap_or(l0);
+                // a lowered limit takes effect with the next dispatch ("after a dispatch has been processed")
+                // (and a dispatch refused because the factory is draining does not go through the limit at all)
+                if changed && (!matches!(run.history[*step], Event::Dispatch(_)) || run.history[..=*step].contains(&Event::Drain)) {
+                    continue;
+                }
                 if let Some(q) = q {
                     // jobs the priority manager declares non-discardable (key b in the prio-keep units) are
                     // queued regardless of the limit
@@ -303,25 +322,31 @@ pub fn c15(run: &Run) -> Vec<String> {
                 bad.push(format!("job {id} was reported as load-shed {shed} times"));
             }
         }
-        // worker-queued routing: at most `l` jobs wait per worker. Jobs of one key all go to one worker
-        // under key-persistent / constant-hash routing, so with a single key in play the number of
-        // accepted, not yet started, not refused jobs is bounded by l (+ those lost with a death)
-        if matches!(run.cfg.routing, Routing::KeyPersistent | Routing::CustomConst | Routing::CustomMax) && run.deaths == 0 {
-            let only_key0 = run.jobs.iter().all(|j| j.key == 0) || !matches!(run.cfg.routing, Routing::KeyPersistent);
-            if only_key0 {
-                // replay the ledger event by event
-                let mut waiting_max = 0usize;
-                for (step, ..) in &run.probes {
-                    let upto: Vec<u32> = run.jobs.iter().map(|j| j.id).filter(|id| (*id as usize) <= run.history[..=*step].iter().filter(|e| matches!(e, Event::Dispatch(_))).count()).collect();
-                    let _ = upto;
-                    let _ = &mut waiting_max;
+        // worker-queued routing: at most `l` discardable jobs wait per worker. When every waiting job is
+        // bound for the same worker (a one-worker pool that is never resized, or a single key under
+        // key-persistent / constant-hash routing) the number of jobs that were sent, not refused, not yet
+        // started and not yet discarded at the moment of a probe is bounded by the limit in effect
+        let one_queue = match run.cfg.routing {
+            Routing::KeyPersistent => (0u8..3).any(|k| run.jobs.iter().all(|j| j.key == k)),
+            Routing::CustomConst | Routing::CustomMax => true,
+            _ => false,
+        } || (run.cfg.workers == 1 && !run.history.iter().any(|e| matches!(e, Event::Resize(_))));
+        if !run.cfg.factory_queueing() && one_queue && !run.history.contains(&Event::NoSettle) {
+            for ((step, ..), t) in run.probes.iter().zip(run.probe_lc.iter()) {
+                if !matches!(run.history[*step], Event::Dispatch(_)) || run.history[..=*step].contains(&Event::Drain) {
+                    continue;
                 }
-                let waiting = run.jobs.iter().filter(|j| {
-                    let x = &f[&j.id];
-                    x.starts.is_empty() && x.discards.is_empty() && j.accepted == Some(true)
-                }).count();
-                if waiting > l && run.finale_rounds == 0 {
-                    bad.push(format!("{waiting} accepted jobs wait for one worker, the discard limit is {l} (history {:?})", run.history));
+                let l = limit_at(*step).unwrap_or(l0);
+                let first = |id: u32, start: bool| run.events.iter().find(|(_, e)| if start { matches!(e, Ev::Start { id: i, .. } if *i == id) } else { matches!(e, Ev::Discard { id: i, .. } if *i == id) }).map(|(l, _)| *l);
+                let waiting: Vec<u32> = run
+                    .jobs
+                    .iter()
+                    .filter(|j| j.lc < *t && !j.send_failed && j.accepted != Some(false))
+                    .filter(|j| first(j.id, true).is_none_or(|x| x > *t) && first(j.id, false).is_none_or(|x| x > *t))
+                    .map(|j| j.id)
+                    .collect();
+                if waiting.len() > l {
+                    bad.push(format!("after step {step} of {:?} jobs {waiting:?} wait for one worker, the discard limit in effect is {l}", run.history));
                 }
             }
         }
